@@ -470,7 +470,7 @@ pub fn generate(kind: &str, thorough: bool, seed: u64, corpus: &str, out: &mut O
         }
         "c05" => {
             let tmp = tmpdir();
-            let sdl = format!("{}\ninput In {{ a: Int  b: Int }}\ninterface Pet {{ name: String  nick: String  owner: Human }}\ntype Dog implements Pet {{ name: String  nick: String  barks: Boolean  owner: Human  n: Int  l: [Int]  m: Int! }}\ntype Cat implements Pet {{ name: String  nick: String  meows: Boolean  owner: Human  n: String  l: [Int!]  m: Int }}\nunion CatOrDog = Cat | Dog\ntype Human {{ name: String  f(x: Int, y: [Int], o: In): Int  list: [Int]  nn: Int!  self: Human  pet: Pet  dog: Dog  cd: CatOrDog }}\ntype Query {{ human: Human  pet: Pet  dog: Dog  cat: Cat  cd: CatOrDog }}\n", schemas::PRELUDE);
+            let sdl = format!("{}\ninput In {{ a: Int  b: Int }}\ninterface Pet {{ name: String  nick: String  owner: Human }}\ntype Dog implements Pet {{ name: String  nick: String  barks: Boolean  owner: Human  n: Int  l: [Int]  m: Int! }}\ntype Cat implements Pet {{ name: String  nick: String  meows: Boolean  owner: Human  n: String  l: [Int!]  m: Int }}\nunion CatOrDog = Cat | Dog\ntype Human {{ name: String  nick: String  f(x: Int, y: [Int], o: In): Int  list: [Int]  nn: Int!  self: Human  pet: Pet  dog: Dog  cd: CatOrDog }}\ntype Query {{ human: Human  pet: Pet  dog: Dog  cat: Cat  cd: CatOrDog }}\n", schemas::PRELUDE);
             let si = gen::SchemaInfo::new("merge", &sdl);
             out.schema(&si);
             let mut group = 0usize;
@@ -507,7 +507,11 @@ pub fn generate(kind: &str, thorough: bool, seed: u64, corpus: &str, out: &mut O
                     let f = frs.replace("{A}", a).replace("{B}", b);
                     emit(format!("query ($v: Int) {}", ctx.replace("{S}", &s).replace("{F}", &f)), "human-pair", group, out);
                 }
-                // split across same-key parents (merged through the parents), 1..3 levels up
+                // the same fragment spread under two pairs of same-key parents: compatible with the first, compared with B in the second
+                if thorough || (ia + ib) % 2 == 0 {
+                    emit(format!("query ($v: Int) {{ human {{ a: self {{ ...F }} a: self {{ {} }} b: self {{ ...F }} b: self {{ {} }} }} }} fragment F on Human {{ {} }}", a, b, a), "shared-frag", group, out);
+                    emit(format!("query ($v: Int) {{ human {{ a: self {{ {} }} a: self {{ ...F }} b: self {{ {} }} b: self {{ ...F }} }} }} fragment F on Human {{ {} }}", b, a, b), "shared-frag", group, out);
+                }
                 for (ip, t) in [format!("{{ human {{ {} }} human {{ {} }} }}", a, b), format!("{{ human {{ self {{ {} }} }} human {{ self {{ {} }} }} }}", a, b),
                           format!("{{ human {{ self {{ {} }} ...F }} }} fragment F on Human {{ self {{ {} }} }}", a, b),
                           format!("{{ human {{ ...F ...G }} }} fragment F on Human {{ self {{ self {{ {} }} }} }} fragment G on Human {{ self {{ self {{ {} }} }} }}", a, b),
@@ -517,8 +521,14 @@ pub fn generate(kind: &str, thorough: bool, seed: u64, corpus: &str, out: &mut O
                 }
             } }
             // ---- pairs under abstract parents: fields of Dog vs Cat (mutually exclusive parents: only the shapes matter)
-            let dv = ["k: name", "k: nick", "k: n", "k: l", "k: m", "k: barks", "k: owner { name }", "k: owner { name: nn }", "k: owner { name: list }", "k: owner { k: self { name } }"];
-            let cv = ["k: name", "k: nick", "k: n", "k: l", "k: m", "k: meows", "k: owner { name }", "k: owner { name: nn }", "k: owner { name: f }", "k: owner { k: self { name: nn } }"];
+            let dv = ["k: name", "k: nick", "k: n", "k: l", "k: m", "k: barks", "k: owner { name }", "k: owner { name: nn }", "k: owner { name: list }", "k: owner { k: self { name } }", "k: owner { name: f(x: 1) }"];
+            let cv = ["k: name", "k: nick", "k: n", "k: l", "k: m", "k: meows", "k: owner { name }", "k: owner { name: nn }", "k: owner { name: f }", "k: owner { k: self { name: nn } }", "k: owner { name: nick }", "k: owner { name: f(x: 2) }"];
+            // the sub-selection of `owner` moved into a named fragment (exclusivity of the parents is inherited, F15-independent)
+            let in_frag = |x: &str, f: &str| -> Option<(String, String)> {
+                let i = x.find("owner { ")?;
+                let body = &x[i + 8..x.len() - 2];
+                Some((format!("{}owner {{ ...{} }}", &x[..i], f), format!("fragment {} on Human {{ {} }}", f, body)))
+            };
             for a in dv.iter() { for b in cv.iter() {
                 group += 1;
                 for t in [format!("{{ pet {{ ... on Dog {{ {} }} ... on Cat {{ {} }} }} }}", a, b), format!("{{ pet {{ ... on Cat {{ {} }} ... on Dog {{ {} }} }} }}", b, a),
@@ -527,6 +537,22 @@ pub fn generate(kind: &str, thorough: bool, seed: u64, corpus: &str, out: &mut O
                           format!("{{ human {{ pet {{ ... on Dog {{ {} }} }} pet {{ ... on Cat {{ {} }} }} }} }}", a, b),
                           format!("{{ dog {{ {} }} dog: cat {{ {} }} }}", a, b)] {
                     emit(t, "abstract-pair", group, out);
+                }
+                // one or both sides under inline fragments without a type condition (the enclosing type is inherited)
+                for t in [format!("{{ pet {{ ... on Dog {{ ... {{ {} }} }} ... on Cat {{ {} }} }} }}", a, b),
+                          format!("query ($w: Boolean) {{ pet {{ ... on Dog {{ {} }} ... on Cat {{ ... @include(if: $w) {{ {} }} }} }} }}", a, b),
+                          format!("{{ cd {{ ...D ...C }} }} fragment D on Dog {{ ... {{ ... {{ {} }} }} }} fragment C on Cat {{ ... {{ {} }} }}", a, b)] {
+                    emit(t, "abstract-untyped", group, out);
+                }
+                // sub-selections reached through named fragments on one or both sides
+                let fa = in_frag(a, "OA"); let fb = in_frag(b, "OB");
+                if let (Some((a2, fa2)), Some((b2, fb2))) = (fa, fb) {
+                    for t in [format!("{{ pet {{ ... on Dog {{ {} }} ... on Cat {{ {} }} }} }} {}", a, b2, fb2),
+                              format!("{{ pet {{ ... on Dog {{ {} }} ... on Cat {{ {} }} }} }} {}", a2, b, fa2),
+                              format!("{{ pet {{ ... on Dog {{ {} }} ... on Cat {{ {} }} }} }} {} {}", a2, b2, fa2, fb2),
+                              format!("{{ cd {{ ...D ...C }} }} fragment D on Dog {{ {} }} fragment C on Cat {{ {} }} {}", a, b2, fb2)] {
+                        emit(t, "abstract-subfrag", group, out);
+                    }
                 }
             } }
             // ---- the recorded witnesses of F15 (a) and (b), and near misses
